@@ -608,6 +608,86 @@ def common_json(x: Any) -> Any:
     return json.loads(json.dumps(_jsonable(x), default=repr))
 
 
+# ------------------------------------------------------------------------------------------------ shipped evaluators
+_SHIPPED_EXPRESSIONS = ["Muss [1] U [2]", "Muss [1] O [2] Soll [3]", "Muss ([1] U [501]) X [2][901]", "Muss [1P] U [3]",
+                        "Soll [2][902] U [1] Kann", "X [1] U ([2] O [3])[901]"]
+
+
+def _shipped_tables() -> List[dict]:
+    out = []
+    for bits in range(8):
+        out.append({"rc": {"1": "FU"[bits & 1], "2": "FU"[(bits >> 1) & 1], "3": "FU"[(bits >> 2) & 1], "4": "FU"[bits % 2]},
+                    "fc": {"901": bits % 3 == 0, "902": bits % 2 == 1}, "hints": {"501": f"Hinweis 501 of world {bits}"},
+                    "packages": {"1P": "[4] O [2]" if bits % 2 else "[2] U [4]"}})
+    return out
+
+
+def shipped_concurrent(expression: str, order: Tuple[int, ...]) -> dict:
+    """the SHIPPED content-evaluation-result based evaluators / hints provider / package resolver (one singleton each):
+    the same expression - the same keys - evaluated concurrently (asyncio.gather, one task each) under different
+    context-local data; every task has to get the result it gets when it runs alone"""
+    common.configure_inject()
+    tables = [_shipped_tables()[i] for i in order]
+    alone = []
+    for t in tables:
+        try:
+            alone.append(canon(common.evaluate(expression, build_cer(t))))
+        except BaseException as e:  # noqa
+            alone.append(f"raised {type(e).__name__}")
+
+    async def one(t):
+        try:
+            return canon(await common.evaluate_async(expression, build_cer(t)))
+        except BaseException as e:  # noqa
+            return f"raised {type(e).__name__}"
+
+    async def together():
+        return await asyncio.gather(*[one(t) for t in tables])
+
+    both = asyncio.run(together())
+    for i, (a, b) in enumerate(zip(alone, both)):
+        if a != b:
+            return {"failing": True, "expression": expression, "order": list(order), "task": i, "table": tables[i],
+                    "alone": a, "concurrently": b}
+    return {"failing": False, "expression": expression, "order": list(order), "tasks": len(tables)}
+
+
+def _shipped_job(job):
+    return shipped_concurrent(*job)
+
+
+def run_shipped(ctx, tier: str, seed: int) -> None:
+    t0 = time.time()
+    rng = random.Random(seed + 12)
+    jobs = []
+    for e in _SHIPPED_EXPRESSIONS:
+        for _ in range(6 if tier == "thorough" else 2):
+            jobs.append((e, tuple(rng.sample(range(8), 5))))
+    results = pmap(_shipped_job, jobs)
+    ctx.bounded("concurrent/shipped-evaluators-same-keys", evaluations=sum(2 * 5 for _ in results),
+                distinct_nontrivial=len({(r["expression"], tuple(r["order"])) for r in results}),
+                rule="a case = (expression, 5 different content evaluation results): 5 tasks evaluate the SAME expression "
+                     "(same keys, same singleton evaluators) concurrently, each with its own context-local data; each is "
+                     "compared with its result when run alone",
+                samples=[{"expression": r["expression"], "order": r["order"]} for r in results[:3]], exhaustive=False,
+                bound=f"{len(jobs)} groups of 5 concurrent evaluations; natural interleaving at the library's own gather points",
+                seconds=time.time() - t0)
+    seen = set()
+    for r in results:
+        if not r["failing"] or r["expression"] in seen or len(seen) >= 3:
+            continue
+        again = shipped_concurrent(r["expression"], tuple(r["order"]))
+        if not again["failing"]:
+            ctx.note(f"C12 shipped-evaluators: a difference for {r['expression']!r} did not reproduce (not reported)")
+            continue
+        seen.add(r["expression"])
+        ctx.violation(obligation=f"bounded/concurrent-shipped.{len(seen)}",
+                      message=(f"{again['expression']!r}: task {again['task']} of 5 concurrent evaluations (own context-local data "
+                               f"{again['table']}) returns {again['concurrently']} but {again['alone']} when run alone")[:1500],
+                      witness=again, replayed=True, signature=f"shipped:{again['expression']}",
+                      replay_code=f"from bounded import c12\nprint(c12.shipped_concurrent({again['expression']!r}, {tuple(again['order'])!r}))")
+
+
 def run(ctx, tier: str, seed: int) -> None:
     thorough = tier == "thorough"
     rng = random.Random(seed)
@@ -686,6 +766,7 @@ def run(ctx, tier: str, seed: int) -> None:
                  f"e.g. {varies[0]['expression']!r}: alone {varies[0]['alone'][1]!r} vs {varies[0]['under_schedule'][1]!r}; "
                  "compared with the quoted requirement values masked")
     _report(ctx, "concurrent", witnesses)
+    run_shipped(ctx, tier, seed)
     sched.install()  # leave inject in a defined state
     if harness_errors:
         ctx.note(f"C12: {len(harness_errors)} job(s) stopped with a harness problem (not a verdict), first: "
